@@ -86,17 +86,19 @@ def evaluate(ctx: Ctx, scripts, which, compare_model=True, crypto_of=None, sampl
         # The theorems of C13 are proved for the model with the C13 repair and *either* setting of the
         # C12 repair switch (and the safety theorems of C12 likewise), so the tie may be made with
         # whichever of the two variants the code under check implements.
-        for fix12 in (True, False):
-            lines = [dict(gen.model_line(ops, imm=imm, nul=nul), fix12=fix12) for ops in scripts]
+        variants = [(True, True, "with the C12 repairs"), (True, False, "without discard_event on unsubscribe (C12-resubscribe.patch)"),
+                    (False, False, "without the C12 repairs (discard_stale_event, discard_event)")]
+        ok = False
+        for fix12, fixr, label in variants:
+            lines = [dict(gen.model_line(ops, imm=imm, nul=nul), fix12=fix12, fixResub=fixr) for ops in scripts]
             model = run_model_parallel(which, lines, workers=12)
-            ok = all("fatal" not in m and "crash" not in r and gen.first_difference(m, gen.canon_impl(r)) is None
+            ok = all("fatal" not in m and gen.first_difference(m, gen.canon_impl(r)) is None
                      for m, r in zip(model, impl) if "crash" not in r)
-            if ok or not fix12:
-                if ok:
-                    st.hit("outcome", "model-variant-" + ("with" if fix12 else "without") + "-C12-repair", len(scripts))
-                    if not fix12:
-                        st.notes.append("the code matches the model variant WITHOUT the C12 repair (discard_stale_event); "
-                                        "C12_quiescent does not apply to that variant")
+            if ok:
+                st.hit("outcome", "model-variant: " + label, len(scripts))
+                if not (fix12 and fixr):
+                    st.notes.append("the code matches the model variant " + label + "; the C12 theorems that assume the "
+                                    "missing repair (C12_quiescent / C12_delivered_current) do not apply to that variant")
                 break
         if not ok:  # neither variant matches: report against the repaired model
             lines = [gen.model_line(ops, imm=imm, nul=nul) for ops in scripts]
